@@ -189,7 +189,45 @@ def length_domain_rows(W, pf, construct):
             yield (mx is None or cap is None or mx >= cap, wd.get("_codec", construct), f"length guard accepts up to {mx}; {what} carries {cap}",
                    f"the writer rejects lengths above {mx} although {what} carries up to {cap}: a well-typed value of that length cannot be encoded",
                    W.codec_loc({"fn": wd.get("_codec", ":"), "line": wd.get("_line", 0)}))
+        if k == "lenpref" and (str(wd.get("payload", "")).startswith("text") or (isinstance(wd.get("payload"), dict) and wd["payload"].get("k") == "text")):
+            # the prefix counts encoded bytes: a limit must be applied to the encoded length, not to the number of characters
+            def chars(t):
+                if isinstance(t, (list, tuple)):
+                    if len(t) == 2 and t[0] == "len" and list(t[1]) == ["X"]:
+                        return True
+                    return any(chars(x) for x in t)
+                return False
+            bad = [g for g in wd.get("guards") or [] if chars(g.get("cond"))]
+            yield (not bad, wd.get("_codec", construct), "length guard of a string writer measures the encoded bytes",
+                   f"the writer limits len(value) -- characters -- ({[g.get('cond') for g in bad][:1]}) while the prefix and the reader count "
+                   f"encoded bytes: 20000 x 'é' passes the writer's check and is 40000 bytes on the wire",
+                   W.codec_loc({"fn": wd.get("_codec", ":"), "line": wd.get("_line", 0)}))
         wd = wd.get("item") or wd.get("inner")
+    # reader side: what the writer may emit, the reader does not reject on account of its length
+    from ..grammar import eval_int_term
+    rd = pf.get("r")
+    while rd is not None:
+        k, prefix = rd.get("k"), (rd.get("prefix") or {})
+        if k == "lenpref" and rd.get("range_guards"):
+            payload = rd.get("payload")
+            text = str(payload).startswith("text") or (isinstance(payload, dict) and payload.get("k") == "text")
+            bias = rd.get("bias", 0)
+            cap = 32767 if text else ((1 << 31) - 2 if prefix.get("k") == "varint" else length_capacity(prefix, bias))
+            if cap is not None:
+                bad = []
+                for g in rd["range_guards"]:
+                    for ln in (0, 1, 32767, 32768, cap):
+                        if ln > cap:
+                            continue
+                        r_ = eval_int_term(g.get("cond"), ln + bias)
+                        if r_ is not None and bool(r_) != bool(g.get("holds")):
+                            bad.append((ln, g))
+                            break
+                yield (not bad, rd.get("_codec", construct), f"reader length guards admit 0..{cap}",
+                       "; ".join(f"the reader raises {'/'.join(g.get('else') or ['?'])} for a {'string' if text else 'bytes/records'} value of {ln} bytes, "
+                                 f"which the writer emits: the message (and what follows it on the stream) is lost" for ln, g in bad),
+                       W.codec_loc({"fn": rd.get("_codec", ":"), "line": rd.get("_line", 0)}))
+        rd = rd.get("item") or rd.get("inner")
 
 
 def time_writer_domain_rows(ctx):
